@@ -328,4 +328,39 @@ PROPS["C16"] = {
     "level_note": "execute not under contract; engine and z3 trusted.",
 }
 
+PROPS["C01"] = {
+    "contracts": ["contracts/C01_evaluator.py"],
+    "level": "other",
+    "extra": [{"name": "C01/effects[walker effect contract, tables, no-dynamic-exec]", "kind": "scan", "cmd": ["python3-vt", "pyvc/scan_c01.py", "C01"]},
+              {"name": "C01/bounded[forbidden constructs, hostile strings, cost bombs]", "kind": "bounded", "cmd": ["/venv/bin/python", "native/c01_bounded.py", "C01"], "timeout": 600}],
+    "assumptions": ["confinement is an EFFECT contract checked by a provenance type checker over the real AST of _compute_node (pyvc/effects.py): every call is the walker on a node field, "
+                    "a walker primitive on nodes, or a table callable applied to evaluated values; evaluated values are never attribute-accessed, subscripted, called, formatted or iterated; "
+                    "the node classes on which the walker can return are a subset of the statement's list; the tables only hold allow-listed pure callables (explicit list in scan_c01.PURE)",
+                    "the allow-listed callables themselves (operator.*, math.*, builtins) are trusted to be pure; 'pure' does not bound their cost",
+                    "totality: the four pathway functions and the pathway chooser are havocked in the metabolize contract; len() of the expression is an uninterpreted integer",
+                    "A-print: print() is assumed total (the one print of caller text outside the try was repaired to print a repr)",
+                    "resource bound: NOT decidable by contracts; bounded corpus only; recorded known finding (timeout never enforced)"],
+    "trusted_base": ["provenance lattice of pyvc/effects.py", "ast.parse(mode='eval') grammar"],
+    "explanation": "Effect contract + table clauses + structural scan (12 named obligations over the real source), deductive totality/length-guard contract of metabolize and "
+                   "digest_glucose for every pathway behaviour, bounded corpus of forbidden constructs / hostile strings on the real code; the wall-clock clause is a known finding.",
+    "level_text": "Effect-contract checking + deductive totality + bounded corpus; resource clause out of reach (known finding).",
+    "level_note": "Purity of allow-listed primitives trusted; engine and z3 trusted.",
+}
+PROPS["C02"] = {
+    "contracts": [],
+    "level": "other",
+    "extra": [{"name": "C02/tables[operator tables = language reference; call passes all arguments]", "kind": "scan", "cmd": ["python3-vt", "pyvc/scan_c01.py", "C02"]},
+              {"name": "C02/bounded[grammar depth 2 vs restricted CPython eval]", "kind": "bounded", "tiers": ("quick",), "cmd": ["/venv/bin/python", "native/c01_bounded.py", "C02", "2"]},
+              {"name": "C02/bounded[grammar depth 3 vs restricted CPython eval]", "kind": "bounded", "tiers": ("thorough",), "timeout": 3000, "cmd": ["/venv/bin/python", "native/c01_bounded.py", "C02", "3"]}],
+    "assumptions": ["the walker-vs-Python-semantics proof by structural induction (DESIGN section 3, C02) is NOT built: the engine has no model of evaluated user values rich enough to state "
+                    "E(node) = value; what is discharged deductively are the finite table clauses (each AST operator class maps to the operator.* function the language reference assigns) and "
+                    "the structural clause that a call evaluates and passes every positional and keyword argument and never returns a non-callable entry for a call",
+                    "agreement with Python is otherwise a BOUNDED differential check (grammar-directed enumeration vs CPython eval restricted to the same allow-listed names)",
+                    "text-level pathway steps (boolean-literal rewrite, JSON-first parsing) relate external grammars: recorded known findings"],
+    "trusted_base": ["CPython eval as the reference semantics"],
+    "explanation": "Table clauses and the call-argument clause over the real source (3 named obligations) + bounded differential testing against CPython; two text-level disagreements are recorded known findings.",
+    "level_text": "Mostly bounded; finite table clauses deductive.",
+    "level_note": "No inductive proof of the walker against a spec semantics.",
+}
+
 NOT_APPLICABLE = {}
